@@ -73,7 +73,9 @@ def main():
         own=name.split('-')[0]
         if own not in checks: checks.append(own)
         if restrict is not None: checks=[c for c in checks if c in restrict]
-        if not checks: continue
+        if not checks:
+            sh(f'git -C {MX}/repo checkout -- .')
+            continue
         row=matrix.get(name,{})
         try:
             for c in sorted(checks):
